@@ -24,8 +24,10 @@ Print Assumptions C01_write_nd_appends.
    as booleans; arrays in their single-event and many-event forms).
    The full statement is refuted: the dtype of an n-d dataset is frozen by the
    first array (or forced: uint8 images, float32 qpi) and later values it
-   cannot hold are converted (finding C01-nd-dtype-frozen); it holds when every
-   value fits the dataset that receives it ([hist_ok]). *)
+   cannot hold are converted (finding C01-nd-dtype-frozen; float32 rounds to 24
+   significant bits); it holds when every value written TO THAT FEATURE fits
+   the dataset that receives it (the guards are per object: what happens to
+   other features, traces or logs of the history does not matter). *)
 Theorem C01_nd_history_refuted :
   exists (ops : list op) (f : Z),
     rd_nd (st_f (run init ops)) f <> spec_nd f 0 [] ops.
@@ -34,7 +36,7 @@ Print Assumptions C01_nd_history_refuted.
 
 Theorem C01_nd_history_partial :
   forall (f : Z) (ops : list op),
-    hist_ok init ops = true ->
+    hist_ok_nd f init ops = true ->
     rd_nd (st_f (run init ops)) f = spec_nd f 0 [] ops.
 Proof. exact nd_history_init. Qed.
 Print Assumptions C01_nd_history_partial.
@@ -47,7 +49,7 @@ Print Assumptions C01_trace_history_refuted.
 
 Theorem C01_trace_history_partial :
   forall (tr : Z) (ops : list op),
-    hist_ok init ops = true ->
+    hist_ok_trace tr init ops = true ->
     rd_trace (st_f (run init ops)) tr = spec_trace tr 0 [] ops.
 Proof. exact trace_history_init. Qed.
 Print Assumptions C01_trace_history_partial.
@@ -78,7 +80,7 @@ Print Assumptions C01_scalar_history_refuted.
 
 Theorem C01_scalar_history_partial :
   forall (f : Z) (ops : list op),
-    f <> F_INDEX -> hist_ok init ops = true ->
+    f <> F_INDEX -> hist_ok_scalar f init ops = true ->
     rd_scalar (st_f (run init ops)) f = spec_scalar f 0 [] ops.
 Proof. exact scalar_history_init. Qed.
 Print Assumptions C01_scalar_history_partial.
@@ -93,7 +95,7 @@ Print Assumptions C01_log_history_refuted.
 
 Theorem C01_log_history_partial :
   forall (name : Z) (ops : list op),
-    hist_ok init ops = true ->
+    hist_ok_log name init ops = true ->
     rd_log (st_f (run init ops)) name = spec_log name 0 [] ops.
 Proof. exact log_history_init. Qed.
 Print Assumptions C01_log_history_partial.
@@ -133,3 +135,13 @@ Theorem C01_meta_history :
     rd_attr (st_f (run init ops)) k = spec_meta k None ops.
 Proof. exact meta_history_init. Qed.
 Print Assumptions C01_meta_history.
+
+(* The same from what the readers return: if every stored feature reads back n
+   events (lengths that C01_*_history equate with the lengths written since the
+   last replace/reset) the event count stored on exit is n. *)
+Theorem C01_event_count_readers :
+  forall (ops : list op) (n : Z),
+    ReadersBalanced (st_f (run init ops)) n -> feats_sorted (st_f (run init ops)) <> [] ->
+    rd_attr (st_f (run init (ops ++ [OClose]))) M_EVENT_COUNT = Some n.
+Proof. exact event_count_readers. Qed.
+Print Assumptions C01_event_count_readers.
